@@ -945,7 +945,7 @@ func genLargeCalls(r *core.Rand, tier string) core.Case {
 // shrinking from large by Pop/Shift/Remove/SubSlice, refill.
 func genLargeFlex(r *core.Rand, tier string) core.Case {
 	caps := []int{200, 255, 256, 257, 300, 511, 512, 513, 640, 1000, 1023, 1024, 1025}
-	if tier == "thorough" && r.Chance(40) || r.Chance(6) {
+	if tier == "thorough" && r.Chance(40) || r.Chance(15) {
 		caps = append(caps, 2048, 3000, 4096, 5000)
 	}
 	c0 := caps[r.Intn(len(caps))]
@@ -990,7 +990,7 @@ func genLargeFlex(r *core.Rand, tier string) core.Case {
 		addn("appendn", c0+[]int{1, c0 / 4, c0, 2 * c0}[r.Intn(4)]) // growth by append first
 	}
 	n := r.Range(4, 9)
-	for i := 0; i < n && size < 7000; i++ {
+	for i := 0; i < n && size < 20000; i++ {
 		free := cp - size
 		switch r.Pick(34, 10, 18, 12, 8, 8, 5, 5) {
 		case 0: // prepend of a chosen size class relative to the capacity
@@ -1017,12 +1017,12 @@ func genLargeFlex(r *core.Rand, tier string) core.Case {
 			if k < 1 {
 				k = 1
 			}
-			if k > 2000 {
-				k = 2000
-			}
-			op := "popn"
-			if r.Bool() {
-				op = "shiftn"
+			op := "popn" // O(1) per Pop in the oracle's array representation (c14_flex_fast_eq): no cap
+			if r.Chance(35) {
+				op = "shiftn" // Shift moves the whole content (in Go and in the model): bounded
+				if k > 2000 {
+					k = 2000
+				}
 			}
 			emit("%s %d", op, k)
 			size -= k
